@@ -448,6 +448,12 @@ func (s *session) fetchAndWriteResults(statements string, parameters []*schema.N
 	for _, stmt := range stmts {
 		switch st := stmt.(type) {
 		case *sql.UseDatabaseStmt:
+			if s.tx != nil {
+				// useDatabase drops the session's transaction: inside a block
+				// the client would go on in autocommit mode while being told
+				// that its block is open, and its ROLLBACK would undo nothing
+				return pserr.ErrUseInsideTransactionBlock
+			}
 			if err := s.useDatabase(st.DB); err != nil {
 				return err
 			}
